@@ -277,10 +277,11 @@ CHECKS = {
               "normal at d/se or non-central t with the test's df and nc = d/se; one/two-sided rejection region). "
               "power in [0,1]; closed form se^2 = v(1+r)^2/(n r); for the Z test power is monotone in the effect, in n "
               "and in the variance (covariate never lowers power, with cuped_var_le); one-sided t in the effect under "
-              "the stated nct law. Tie: translator + exact correspondence of solve_power(..., 'power') grids; float "
+              "the stated nct law, and in n under that law plus 'the level-alpha t test does not lose power with more degrees "
+              "of freedom' (power_mono_n_t_partial; degrees of freedom monotone for the pooled test). Tie: translator + exact correspondence of solve_power(..., 'power') grids; float "
               "search of range/monotonicity on the real code."),
         note=NOTE_COMMON + "Laws of norm / nct (location family, stochastic monotonicity, cdf in [0,1]) are hypotheses "
-             "sampled on scipy; two-sided and t-test-in-n monotonicity are checked, not proved.",
+             "sampled on scipy; two-sided monotonicity is checked, not proved.",
         technique="Lean 4 proof over generated model + exact correspondence + float relation search",
         design="6/C08",
     ),
